@@ -248,10 +248,12 @@ def run(prog, rep):
         guarded(rep, "C05.R4", "crate::fuzzing", lambda: _fuzzing(prog, rep))
     # the general path must agree with the shortcut: it measures with the indent the line carries (C02), does not
     # break a line that fits (C07.R1 / C03), keeps every word (C06) and reassembles it unchanged (C01.R1)
-    need = ["C11.R3", "C10", "C01.R1", "C02", "C07.R1", "C06.R2"]
+    need = ["C11.R3", "C11.R1", "C11.R9", "C10", "C01.R1", "C02", "DISPATCH", "C07.R1", "C06.R2"]
     from .common import has_feature as _hf
     if _hf(prog, "smawk"):
         need += ["C03.R1", "C03.R2", "C06.R3"]
+    if _hf(prog, "unicode-linebreak"):
+        need += ["C11.R2", "C11.R5", "C11.R6", "C11.R7"]      # the words of the general path
     for l in need:
         st = lemmas.status(prog, l)
         if st == "ok":
